@@ -49,20 +49,36 @@ func (c *Ctx) edgeMust(P, rule, fnName, condRe string, truth bool, mustRe string
 			continue
 		}
 		atom := condAtom(iff.Cond)
-		if !cre.MatchString(atom.Str) {
-			continue
+		var work []*ssa.BasicBlock
+		if cre.MatchString(atom.Str) {
+			idx := 0 // successor on which the atom is true
+			if atom.Neg {
+				idx = 1
+			}
+			if !truth {
+				idx = 1 - idx
+			}
+			work = []*ssa.BasicBlock{b.Succs[idx]}
+		} else {
+			// the guard may live in a predicate helper: the branch is on helper(args), and the atom is
+			// tested inside it. Under the atom's given truth the helper decides the branch (one edge
+			// to follow) or does not (both edges are possible continuations and both owe the construct).
+			matched := []int{0}
+			known, val := c.E1.helperBool(iff.Cond, []Lit{{Re: condRe, Val: truth}}, matched)
+			if matched[0] == 0 {
+				continue
+			}
+			switch {
+			case known && val:
+				work = []*ssa.BasicBlock{b.Succs[0]}
+			case known:
+				work = []*ssa.BasicBlock{b.Succs[1]}
+			default:
+				work = []*ssa.BasicBlock{b.Succs[0], b.Succs[1]}
+			}
 		}
 		n++
-		idx := 0 // successor on which the atom is true
-		if atom.Neg {
-			idx = 1
-		}
-		if !truth {
-			idx = 1 - idx
-		}
-		start := b.Succs[idx]
 		seen := map[*ssa.BasicBlock]bool{}
-		work := []*ssa.BasicBlock{start}
 		for len(work) > 0 {
 			x := work[len(work)-1]
 			work = work[:len(work)-1]
